@@ -873,10 +873,10 @@ impl World for QueryWorld {
                 ops.push(Op { c: o.below(3) as u8, k: K_CLAUSE, a: gen_clause(&mut o, n) });
             }
         }
-        // BDD variant: one small run in 200 is a "counter period" history: f and g over disjoint variables; f is
+        // BDD variant: one small run in 60 is a "counter period" history: f and g over disjoint variables; f is
         // conditioned, then exactly M conditioning queries work on g only, then f is conditioned again with other
         // arguments; M sits next to 2^8 / 2^16 minus a small offset (see worlds::bdd::period_ops)
-        let period = variant == 0 && !wide_bdd && !marathon && c.below(200) == 0;
+        let period = variant == 0 && !wide_bdd && !marathon && c.below(60) == 0;
         if period {
             cfg.insert("nvars".into(), 7);
             cfg.insert("table_cap".into(), 16);
@@ -897,9 +897,23 @@ impl World for QueryWorld {
             ops.push(Op { c: 0, k: k3, a });
             let (f, g) = (7usize, 9usize);
             let (n1, n2) = (1 + o.below(4), 2 + o.below(5));
+            // the query that is repeated: conditioning half of the time (its results join the pool), otherwise one of the
+            // read-only queries (node count, counts in two semirings, evaluation, plain and cached hash, fold, export):
+            // whatever a query stamps, counts or memoises per call -- on the nodes, on the builder or on the thread --
+            // comes back into play when a narrow counter has gone round
+            let qk: i64 = if c.bool() { Q_CONDITION } else { *c.pick(&[Q_COUNT_NODES, Q_COUNT_NODES, Q_WMC_REAL, Q_WMC_FF_SMALL, Q_EVAL, Q_SEMHASH, Q_CACHED_SEMHASH, Q_BDD_FOLD, Q_SERIALIZE]) };
+            let grows = qk == Q_CONDITION;
+            cfg.insert("period_query".into(), qk);
+            let mut n_pool = ops.iter().filter(|x| x.k != Q || x.a[0] == Q_CONDITION).count();
+            let mut ask = |o: &mut Rng, ops: &mut Vec<Op>, target: usize, lo: u64| {
+                let (w1, w2) = if grows { (lo as i64 + o.below(3) as i64, o.below(2) as i64) } else { ((o.next() >> 8) as i64, (o.next() >> 8) as i64) };
+                ops.push(Op { c: 0, k: Q, a: [qk, (2 * (n_pool - 1 - target)) as i64, w1, w2] });
+                if grows {
+                    n_pool += 1;
+                }
+            };
             for _ in 0..n1 {
-                let a = [Q_CONDITION, at(&ops, f), o.below(3) as i64, o.below(2) as i64];
-                ops.push(Op { c: 0, k: Q, a });
+                ask(&mut o, &mut ops, f, 0);
             }
             let per: u64 = if c.below(4) == 0 { 256 } else { 65_536 };
             let m = match c.below(8) {
@@ -908,14 +922,11 @@ impl World for QueryWorld {
                 _ => per - 1 - c.below(2 * (n1 + n2) + 2),
             };
             // (the pool index of g stays 9; only the pool size grows)
-            let mut n_pool = ops.iter().filter(|x| x.k != Q || x.a[0] == Q_CONDITION).count();
             for _ in 0..m {
-                ops.push(Op { c: 0, k: Q, a: [Q_CONDITION, (2 * (n_pool - 1 - g)) as i64, 4 + o.below(3) as i64, o.below(2) as i64] });
-                n_pool += 1;
+                ask(&mut o, &mut ops, g, 4);
             }
             for _ in 0..n2 {
-                ops.push(Op { c: 0, k: Q, a: [Q_CONDITION, (2 * (n_pool - 1 - f)) as i64, o.below(3) as i64, o.below(2) as i64] });
-                n_pool += 1;
+                ask(&mut o, &mut ops, f, 0);
             }
             return Plan { world: "query".into(), target: target.into(), seed: run_seed, cfg, ops, faults: Faults::Random { seed: mix(run_seed, 83), rates: [0; NUM_SITES] } };
         }
